@@ -67,3 +67,12 @@ From AM Require Import Gen.EntryMetrics Model.EntryMetricsIR Proofs.EntryMetrics
 Theorem C07_entry_from_source : forall pid msg, entry_args gen_entry (pid, msg) = Some (pid, msg).
 Proof. exact entry_from_source. Qed.
 Print Assumptions C07_entry_from_source.
+
+(* ---------- the pipe loop that feeds the syslog ingester, from the source ----------
+   The records Process receives are those NamedPipeIngester.Ingest cuts out of the byte stream; the model
+   of that loop IS the interpretation of the loop regenerated from the source (see C12), and the syslog
+   wrapper passes the newline delimiter and its own Process. *)
+From AM Require Import Model.Framing Model.IngestIR Gen.IngestProg Proofs.IngestIRTie.
+Theorem C07_ingest_from_source : forall cs d cb, run_ingest gen_Ingest cs d cb = Some (ingest cs d cb).
+Proof. exact ingest_from_source. Qed.
+Print Assumptions C07_ingest_from_source.
